@@ -5,7 +5,11 @@ sessions vs the model's reader on the same bytes; each writer of an ensemble vs 
 las.points = ..., las[ix], update_header() vs stats_of. Search: exact recomputation of count / extrema / histogram / offsets / length from the
 BYTES of every produced file (no laspy code in the oracle): writer sessions opened in every way (class, laspy.open, encoding_errors, do_compress,
 laz_backend), append sessions, every (version, format) pair with every return number the format can store, ensembles of writers / appenders /
-LasData built from ONE header object and used interleaved, refused and torn writes followed by continued use."""
+LasData built from ONE header object and used interleaved, refused and torn writes followed by continued use. Round 5: records of the LENGTHS where
+block-wise copies change behaviour (exact multiples of 2**16, 2**17 +- 1, one chunk beyond 2**20 points) selected as strided / reversed views (not
+contiguous), by index arrays and masks, stored through LasData[ix].write (stream and path), a chunked writer (stream and path) and an appender,
+judged by the file length equation and the exact statistics recomputed from the bytes; LasData(header with stale counters, points) then sliced /
+masked / updated."""
 import io
 
 import numpy as np
@@ -16,7 +20,8 @@ from harness.props import c06
 ASSUMPTIONS = ["positive finite scales: the generic theorems assume ap_ok of the float formula x -> x*scale+offset; for the Gallina binary64 formula ap64 "
                "(Model/F64Bits.v, compared bit for bit with numpy and with LasHeader.grow/update in every run) ap_ok is PROVED on good_scaling and "
                "C03_extrema_binary64 / C03_grow_app_binary64 need no hypothesis on the formula",
-               "non-contiguous records (las[::2]) are materialised before being written by the harness",
+               "non-contiguous records (las[::2], points[::-1], las[1::3]) are handed to the writer / appender AS VIEWS (not materialised by the harness), in "
+               "small sizes and at the sizes where block-wise copies change behaviour (exact multiples of 2**16, 2**17 +- 1, a single chunk beyond 2**20 points)",
                "I/O faults judged here: a write_points / append_points whose low-level write fails with OSError BEFORE storing any byte, followed by "
                "anything (with-block exit, more chunks, the same chunk again, close): the refused chunk counts as not accepted and the file must be the "
                "file of the accepted chunks. Torn writes (bytes stored) are C19's (reading never yields other records); C03 does not range over them"]
@@ -69,8 +74,19 @@ def inmem_cases(ctx):
         n = rng.choice([0, 1, 2, 9, 33])
         las = laspy.LasData(header=h)
         pts = lasio.rand_points(rng, h, n) if rng.random() < 0.5 else lasio.sweep_points(rng, h, n)
-        kind = rng.choice(["assign", "slice", "mask", "list", "update", "int", "resample"])
-        las.points = pts
+        kind = rng.choice(["assign", "slice", "mask", "list", "update", "int", "resample", "ctor", "ctor"])
+        via_ctor = False
+        if kind == "ctor":
+            # LasData(header, points=...) is how laspy.read builds its result: the header handed over may carry STALE counters (rand_header:
+            # point_count / extrema / histogram of another cloud, half of the time). The constructed object itself is not judged (nothing
+            # was assigned), what is derived from it by slicing / masking / update_header() is
+            las = laspy.LasData(header=h, points=pts)
+            via_ctor = True
+            kind = rng.choice(["slice", "mask", "list", "update", "resample"])
+            if n == 0:
+                continue
+        if not via_ctor:
+            las.points = pts
         if kind == "assign" or n == 0:
             out.append(("points assigned", las))
             continue
@@ -131,7 +147,8 @@ def correspond(ctx):
                          "sweeping the whole range of the format), append sessions (C06 generator) and ensembles (2-4 writers / appenders / LasData created "
                          "from ONE header object, operations interleaved, the same record handed to several): the model's read_file on the produced bytes vs "
                          "laspy.read (every header field, VLRs, EVLRs, records); each writer of an ensemble vs the model's wrun on its own operations; in-memory "
-                         "LasData after points assignment, slice / mask / index list, update_header(): header statistics vs the model's stats_of. non-trivial = "
+                         "LasData after points assignment, slice / mask / index list, update_header() - also on objects built by LasData(header with stale counters, points) -: "
+                         "header statistics vs the model's stats_of. Search adds large selections (lengths 2**16 k, 2**17 +- 1, > 2**20; strided / reversed / fancy). non-trivial = "
                          "at least one point; distinct by file bytes / record bytes")
     import laspy
     dis = []
@@ -386,6 +403,111 @@ def pair_sweep(ctx):
     return out
 
 
+def big_shape_sessions(ctx):
+    """(kind, description, why): records whose LENGTH sits where block-wise copies change behaviour - exact multiples of 2**16, 2**17 +- 1,
+    one single chunk beyond 2**20 points - selected from a larger record as a strided / reversed view (not contiguous: the writer has to
+    gather it), by an index array or a mask, or whole; stored through every route (LasData[...].write to a stream / a path, a chunked writer,
+    an appender). Judged from the bytes: file length = offset + count x record length + EVLR bytes, count / extrema / histogram exact, the stored
+    records are the selected ones."""
+    import os
+    import tempfile
+    import laspy
+    from laspy.vlrs.vlrlist import VLRList
+    rng = ctx.rng
+    out = []
+    routes = ["LasData[ix].write(stream)", "LasWriter.write_points(view)", "laspy.open(mode=a).append_points(view)", "LasData[ix].write(path)",
+              "laspy.open(path, mode=w).write_points(view)"]
+    strided = ["[::2]", "[::-1]", "[1::2]", "[::3]", "[::-2]"]
+    plan = []
+    for i, L in enumerate(lasio.BIG_LENGTHS):
+        shape = rng.choice(strided[:2] if L > (1 << 20) else strided)
+        plan.append((L, shape, routes[(i + ctx.seed) % len(routes)]))
+    # the sizes a block-wise copy is most likely to get wrong, through the two main routes in every run
+    plan += [(1 << 17, rng.choice(strided), routes[0]), (1 << 17, "[::2]", routes[1]), (rng.choice([2, 3, 4]) << 16, rng.choice(strided), routes[2])]
+    for _ in range(ctx.n(3, 40)):
+        plan.append((rng.choice(lasio.BIG_LENGTHS[:7]), rng.choice(lasio.BIG_SHAPES), rng.choice(routes)))
+    for L, shape, route in plan:
+        h = lasio.small_header(rng)
+        evl = VLRList([lasio.rand_vlr(rng, 40)]) if (h.version.minor >= 4 and rng.random() < 0.5) else None
+        d = dict(lasio.describe_header(h), length=L, selection=shape, route=route, evlrs=len(evl or []))
+        tmpd = None
+        try:
+            base, sel, want = lasio.big_selection(rng, h, L, shape)
+            extra = lasio.rand_points(rng, h, rng.choice([0, 1, 3]))
+            if route.startswith("LasData"):
+                las = laspy.LasData(header=h)
+                las.points = base
+                if evl:
+                    las.evlrs = evl
+                if shape == "whole":
+                    sub = las
+                elif shape in ("fancy", "mask"):
+                    sub = laspy.LasData(header=h, points=sel)
+                    sub.evlrs = evl if evl else sub.evlrs
+                else:
+                    a, b_, st = {"[::2]": (None, None, 2), "[::-1]": (None, None, -1), "[1::2]": (1, None, 2), "[::3]": (None, None, 3), "[::-2]": (None, None, -2)}[shape]
+                    sub = las[slice(a, b_, st)]
+                    if evl:
+                        sub.evlrs = evl
+                if route.endswith("(path)"):
+                    tmpd = tempfile.mkdtemp(dir="/var/tmp", prefix="c03_big_")
+                    sub.write(os.path.join(tmpd, "big.las"))
+                    with open(os.path.join(tmpd, "big.las"), "rb") as f:
+                        raw = f.read()
+                else:
+                    bio = io.BytesIO()
+                    sub.write(bio)
+                    raw = bio.getvalue()
+            elif "append" in route:
+                first = lasio.rand_points(rng, h, rng.choice([0, 2]))
+                bio = io.BytesIO(lasio.write_las(h, first, evl))
+                with laspy.open(bio, mode="a", closefd=False) as ap:
+                    ap.append_points(sel)
+                    if len(extra):
+                        ap.append_points(extra)
+                raw = bio.getvalue()
+                want = lasio.rec_bytes(first) + want + lasio.rec_bytes(extra)
+            else:
+                if "path" in route:
+                    tmpd = tempfile.mkdtemp(dir="/var/tmp", prefix="c03_big_")
+                    dest = os.path.join(tmpd, "big.las")
+                    w = laspy.open(dest, mode="w", header=h)
+                else:
+                    dest = io.BytesIO()
+                    w = laspy.LasWriter(dest, h, closefd=False)
+                with w:
+                    w.write_points(sel)
+                    if len(extra):
+                        w.write_points(extra)
+                    if evl:
+                        w.write_evlrs(evl)
+                if tmpd:
+                    with open(dest, "rb") as f:
+                        raw = f.read()
+                else:
+                    raw = dest.getvalue()
+                want = want + lasio.rec_bytes(extra)
+        except Exception as ex:
+            import traceback
+            out.append(("large selection: the session raised", d, f"{type(ex).__name__}: {ex} | " + traceback.format_exc()[-500:]))
+            continue
+        finally:
+            if tmpd:
+                import shutil
+                shutil.rmtree(tmpd, ignore_errors=True)
+        ctx.case(("big", L, shape, route, len(raw), raw[:600]), nontrivial=True)
+        ctx.count(f"big:{shape}:{'multiple of 65536' if L % 65536 == 0 else 'other'}")
+        probs = lasio.raw_stats_problems(raw)
+        if not probs and lasio.raw_records(raw) != want:
+            probs = ["records: the stored records are not the selected ones"]
+        if probs:
+            contiguous = shape in ("fancy", "mask", "whole")
+            out.append((f"large {'contiguous' if contiguous else 'non-contiguous'} record ({'exact multiple of 65536' if L % 65536 == 0 else 'not a multiple of 65536'}): "
+                        + probs[0].split(" ")[0] + " wrong", d, "; ".join(probs[:3])))
+        del base, sel, want, raw
+    return out
+
+
 def _guarded(add, name, fn):
     """runs one section of the search; if the section itself cannot be run on this tree (an exception escaping from laspy where the
     unchanged tree raises none), that is reported as a failing input instead of losing the findings of the other sections"""
@@ -480,6 +602,10 @@ def search(ctx, seeds):
             if probs:
                 add(kind + ": " + probs[0].split(" ")[0], desc, "; ".join(probs[:3]))
     _guarded(add, 'refused writes and edited sessions', sec_refused_writes_and_edited_sessions)
+    def sec_large_selections():
+        for kind, d, why in big_shape_sessions(ctx):
+            add(kind, d, why)
+    _guarded(add, 'large selections', sec_large_selections)
     def sec_torn_writes():
         # (d) one low-level write refused with nothing stored, then continued use (torn writes that stored bytes: C19)
         from harness.props import c19
